@@ -330,6 +330,13 @@ func (dec *Decoder) ReadReference(p interface{}) {
 		return
 	}
 	o := dec.refer.Read(index)
+	if o == nil {
+		// a slot that was only reserved holds nothing a reference could stand for
+		if dec.Error == nil {
+			dec.Error = DecodeError("hprose/io: reference to an item without a value")
+		}
+		return
+	}
 	src := reflect.TypeOf(o)
 	dest := reflect.TypeOf(p).Elem()
 	if conv := GetConverter(src, dest); conv != nil {
